@@ -122,7 +122,7 @@ def gen_custom(rng, k):
     for i in range(n):
         kind = rng.choice(["lit", "lit", "litdot", "grp", "swap", "named", "alt", "galt", "null", "backref",
                            "overlap", "suffix", "multi", "dup", "esc", "deep", "deep",
-                           "head", "head", "head"])
+                           "head", "head", "head", "whole", "whole"])
         t = f"k{k}r{i}"
         if kind == "lit":
             rows.append((f"lit/{t}", f"lit_{t}"))
@@ -178,6 +178,26 @@ def gen_custom(rng, k):
             rows.append((f"deep/{t}/x/y", f"deep_{t}"))
             labels += [f"deep_{t}", f"deep/{t}/x/y", f"deep/{t}/x", f"deep/{t}"]
             collide.append((f"deep_{t}", f"deep/{t}/x/y", [f"deep/{t}/x", f"deep/{t}"]))
+        elif kind == "whole":
+            # templates that are not plain text although the label pattern has NO capture group: the whole-match
+            # reference \g<0>, an escaped backslash, \n-like escapes of Match.expand (seed C09-l: expand() skipped
+            # for group-less patterns); and the same references beside real groups
+            shape = rng.choice(["g0", "g0", "bs", "g0grp", "esc_n", "g0alt"])
+            if shape == "g0":
+                rows.append((f"style/{t}/\\g<0>", f"\\w+_naive_{t}"))
+                labels += [f"bubble_sort_naive_{t}", f"x_naive_{t}", f"_naive_{t}", f"a b_naive_{t}"]
+            elif shape == "bs":
+                rows.append((f"bs/{t}\\\\x", f"back_{t}.*"))
+                labels += [f"back_{t}", f"back_{t}:1", f"xback_{t}"]
+            elif shape == "g0grp":
+                rows.append((f"w/\\g<0>/{t}/\\1", f"gz_{t}:(\\d+)"))
+                labels += [f"gz_{t}:12", f"gz_{t}:", f"gz_{t}:x"]
+            elif shape == "esc_n":
+                rows.append((f"tab/{t}\\t.", f"tb_{t}\\b.*"))
+                labels += [f"tb_{t}", f"tb_{t}:q"]
+            elif shape == "g0alt":
+                rows.append((f"alt0/\\g<0>", f"aa_{t}|bb_{t}"))
+                labels += [f"aa_{t}", f"bb_{t}", f"cc_{t}"]
         elif kind == "head":
             # rows shaped like the default table's `head:regex` whose part before the first colon (or whose
             # first/last characters) only LOOKS literal: a wildcard dot, an optional character, a class, an
